@@ -968,8 +968,9 @@ Qed.
 
 Lemma model_is_spec : forall i, model i = model_spec i.
 Proof.
-  intros [k d o]. unfold model, model_spec, new_verifier, oci_of, blob_of, validate_ptr, validate_json, other_kind.
-  cbn [i_kind i_doc i_other]. destruct k, d as [d|], o as [o|]; try reflexivity;
+  intros [k d o c]. unfold model, model_spec, construct, new_verifier_store, new_verifier, oci_of, blob_of,
+    validate_ptr, validate_json, other_kind.
+  cbn [i_kind i_doc i_other i_ctor]. destruct c, k, d as [d|], o as [o|]; try reflexivity;
     rewrite ?andthen_EOk_r; try reflexivity.
 Qed.
 
@@ -1001,37 +1002,46 @@ Proof.
   - destruct (enf_code_head enf Hi) as [t ->]. apply orb_true_r.
 Qed.
 
+Lemma is_ok_validate_ptr : forall k d, is_ok (validate_ptr k d) = accept_expected k d.
+Proof. intros k [d|]; [apply is_ok_validate | reflexivity]. Qed.
+
+Lemma is_ok_validate_json : forall k d, is_ok (validate_json k d) = accept_expected k d.
+Proof. intros k [d|]; [apply is_ok_validate | destruct k; reflexivity]. Qed.
+
+Lemma is_ok_new_verifier : forall oci blob,
+  is_ok (new_verifier oci blob)
+  = match oci, blob with
+    | None, None => false
+    | Some d, None => wellformed_b OCI d
+    | None, Some b => wellformed_b Blob b
+    | Some d, Some b => wellformed_b OCI d && wellformed_b Blob b
+    end.
+Proof.
+  intros [d|] [b|]; unfold new_verifier; rewrite ?is_ok_andthen, ?is_ok_validate, ?andb_true_r;
+    reflexivity.
+Qed.
+
+Lemma is_ok_construct : forall i,
+  is_ok (construct (i_ctor i) (oci_of i) (blob_of i))
+  = construct_expected i (accept_expected (i_kind i) (i_doc i)).
+Proof.
+  intros [k d o c]. unfold construct, new_verifier_store, construct_expected, new_expected, accept_expected,
+    oci_of, blob_of, other_kind.
+  cbn [i_kind i_doc i_other i_ctor].
+  destruct c; try reflexivity; rewrite is_ok_new_verifier;
+    destruct k, d as [d|], o as [o|]; try reflexivity; apply andb_comm.
+Qed.
+
 Theorem model_spec_ok : forall i, spec_ok i (model i) = true.
 Proof.
   intros i. rewrite model_is_spec. unfold spec_ok. apply N.eqb_eq.
-  destruct i as [k d o]. unfold fp, model_spec, accept_expected, new_expected, new_verifier,
-    oci_of, blob_of, validate_ptr, validate_json, other_kind.
-  cbn [i_kind i_doc i_other o_val o_json o_new o_levels].
-  destruct d as [d|].
-  - rewrite is_ok_validate, eqb_reflx. cbn [negb].
-    destruct o as [o|].
-    + assert (Hn : is_ok (match k with
-                         | OCI => validate OCI d ;; validate Blob o
-                         | Blob => validate OCI o ;; validate Blob d end)
-                   = wellformed_b k d && wellformed_b (match k with OCI => Blob | Blob => OCI end) o).
-      { destruct k; rewrite is_ok_andthen, !is_ok_validate; [reflexivity | apply andb_comm]. }
-      destruct k; cbn [oci_of blob_of] in *; rewrite Hn, eqb_reflx; cbn [negb];
-        (destruct (wellformed_b _ d) eqn:Ew; [|reflexivity]; cbn [andb];
-         pose proof (proj2 (validate_ok_b _ d) Ew) as Ev; rewrite Ev;
-         rewrite (levels_ok_model _ (accepted_stmts_ok _ _ Ev)), (accepted_strings_safe _ _ Ev); reflexivity).
-    + assert (Hn : is_ok (match k with
-                         | OCI => validate OCI d ;; EOk
-                         | Blob => EOk ;; validate Blob d end) = wellformed_b k d).
-      { destruct k; rewrite ?andthen_EOk_r; cbn [andthen]; apply is_ok_validate. }
-      destruct k; cbn [oci_of blob_of] in *; rewrite Hn, eqb_reflx; cbn [negb];
-        (destruct (wellformed_b _ d) eqn:Ew; [|reflexivity]; cbn [andb];
-         pose proof (proj2 (validate_ok_b _ d) Ew) as Ev; rewrite Ev;
-         rewrite (levels_ok_model _ (accepted_stmts_ok _ _ Ev)), (accepted_strings_safe _ _ Ev); reflexivity).
-  - destruct o as [o|].
-    + destruct k; cbn; rewrite ?andthen_EOk_r;
-        [change (validate_blob o) with (validate Blob o) | change (validate_oci o) with (validate OCI o)];
-        rewrite is_ok_validate, eqb_reflx; reflexivity.
-    + destruct k; reflexivity.
+  unfold fp, model_spec. cbn [o_val o_json o_new o_levels].
+  rewrite is_ok_validate_ptr, is_ok_validate_json, is_ok_construct, !eqb_reflx. cbn [negb].
+  destruct (i_doc i) as [d|]; [|reflexivity].
+  cbn [validate_ptr accept_expected].
+  destruct (wellformed_b (i_kind i) d) eqn:Ew; [|reflexivity].
+  pose proof (proj2 (validate_ok_b _ d) Ew) as Ev. rewrite Ev.
+  rewrite (levels_ok_model _ (accepted_stmts_ok _ _ Ev)), (accepted_strings_safe _ _ Ev). reflexivity.
 Qed.
 
 Theorem model_meets_oracle : forall i, wf i = true -> spec_ok i (model i) = true.
